@@ -68,17 +68,26 @@ def rule_twin_constants(ctx: Ctx, rule: str) -> None:
         ctx.ob(rule, f'{m}:{name}', ok, site, 'second element = first element encoded as latin-1 (same re flags)', got,
                witness=f"an edit to only one half of {name} makes bytes and str calls disagree, e.g. escape(b'~') vs escape('~')")
     ctx.floor(rule, 'twin tuples', n, 26)
-    # sets that list the str and the bytes form of the same symbols side by side
+    # symbol sets that are tested against a slice of the (str or bytes) pattern must contain both forms of every symbol
+    used: dict[tuple[str, str], ast.AST] = {}
+    for mod in repo.modules.values():
+        for fi in mod.functions.values():
+            for c in walk_no_nested(fi.node):
+                if isinstance(c, ast.Compare) and len(c.ops) == 1 and isinstance(c.ops[0], (ast.In, ast.NotIn)) and \
+                        isinstance(c.left, ast.Subscript) and isinstance(c.left.slice, ast.Slice) and isinstance(c.comparators[0], ast.Name):
+                    nm = c.comparators[0].id
+                    v = mod.env.get(nm)
+                    if isinstance(v, (frozenset, tuple)) and v and all(isinstance(x, (str, bytes)) for x in v):
+                        used.setdefault((mod.name, nm), c)
     m2 = 0
-    for mname in TWIN_MODULES:
-        for name, v in repo.mod(mname).env.items():
-            if isinstance(v, frozenset) and v and all(isinstance(x, (str, bytes)) for x in v) and any(isinstance(x, bytes) for x in v) and name.isupper():
-                m2 += 1
-                s = {x for x in v if isinstance(x, str)}
-                b = {x for x in v if isinstance(x, bytes)}
-                ok = {x.encode('latin-1') for x in s} == b
-                ctx.ob(rule, f'{mname}:{name}/mixed-set', ok, repo.loc(mname, repo.const_line(mname, name)), 'every str member has its bytes twin and vice versa',
-                       f'str {sorted(s)} / bytes {sorted(b)}', witness="b'!(a)' with NEGATE|EXTMATCH must be an extended group like '!(a)'")
+    for (mname, name), site_node in sorted(used.items()):
+        v = repo.mod(mname).env[name]
+        m2 += 1
+        s_ = {x for x in v if isinstance(x, str)}
+        b_ = {x for x in v if isinstance(x, bytes)}
+        ok = {x.encode('latin-1') for x in s_} == b_ and bool(s_)
+        ctx.ob(rule, f'{mname}:{name}/mixed-set', ok, repo.loc(mname, repo.const_line(mname, name)), 'every str member has its bytes twin and vice versa',
+               f'str {sorted(s_)} / bytes {sorted(b_)}', witness="b'!(a)' with NEGATE|EXTMATCH must be an extended group like '!(a)'")
     ctx.floor(rule, 'mixed str/bytes symbol sets', m2, 3)
 
 
